@@ -198,12 +198,18 @@ Qed.
 
 (** [pstream]: [stream], plus what kind of token may contain a line feed, plus the line the lexer
     reports after each token ([current_line()]): the line of the token's last byte *)
+(** the location ([current_loc()]) just after the text [s]: its line, and the byte column within that line *)
+Definition loc_after (s : str) : loc := mkLoc (fst (pos_at s)) (byte_len s - snd (pos_at s)).
+
 Inductive pstream : str -> str -> list ptoken -> Prop :=
   | ps_nil pre g : forallb ignorable g = true -> pstream pre g []
   | ps_cons pre g pt rest_ pts :
       forallb ignorable g = true -> tspell (pt_tok pt) <> [] -> tok_wf (pre ++ g) (pt_tok pt) ->
       nlk (pt_tok pt) ->
       pt_line pt = fst (pos_at (pre ++ g ++ tspell (pt_tok pt))) ->
+      (* the location reported after the token: just past it and the apostrophes swallowed with it *)
+      (exists gap2 r2, rest_ = gap2 ++ r2 /\ forallb is_apos gap2 = true /\
+                       pt_loc pt = loc_after (pre ++ g ++ tspell (pt_tok pt) ++ gap2)) ->
       pstream (pre ++ g ++ tspell (pt_tok pt)) rest_ pts ->
       pstream pre (g ++ tspell (pt_tok pt) ++ rest_) (pt :: pts).
 
@@ -215,19 +221,21 @@ Proof. intros -> ->. auto. Qed.
 
 Lemma pstream_gap p gap s ts : forallb ignorable gap = true -> pstream (p ++ gap) s ts -> pstream p (gap ++ s) ts.
 Proof.
-  intros Hg H. inversion H as [pre g Hi|pre g pt rest_ ts' Hi Hne Hwf Hk Hl Hs]; subst.
+  intros Hg H. inversion H as [pre g Hi|pre g pt rest_ ts' Hi Hne Hwf Hk Hl Hc Hs]; subst.
   - apply ps_nil. rewrite forallb_app, Hg, Hi. reflexivity.
   - rewrite app_assoc. apply ps_cons; auto.
     + rewrite forallb_app, Hg, Hi. reflexivity.
     + rewrite app_assoc. exact Hwf.
     + rewrite Hl. f_equal. f_equal. rewrite <- !app_assoc. reflexivity.
+    + destruct Hc as (gap2 & r2 & E1 & E2 & E3). exists gap2, r2. repeat split; auto. rewrite E3. f_equal. rewrite <- !app_assoc. reflexivity.
     + eapply pstream_eq; [| reflexivity | exact Hs]. rewrite <- !app_assoc. reflexivity.
 Qed.
 
 Definition stream_staged (pre : str) (lx : lexer) (ts : list ptoken) : Prop :=
   match staged lx with
   | None => pstream pre (rest lx) ts
-  | Some t2 => exists pt ts', ts = pt :: ts' /\ pt_tok pt = t2 /\ pt_line pt = fst (pos_at pre) /\ pstream pre (rest lx) ts'
+  | Some t2 => exists pt ts', ts = pt :: ts' /\ pt_tok pt = t2 /\ pt_line pt = fst (pos_at pre) /\ pt_loc pt = loc_after pre /\
+                              pstream pre (rest lx) ts'
   end.
 
 Definition measure (lx : lexer) : nat :=
@@ -245,37 +253,64 @@ Definition staged_ok2 (pre : str) (lx : lexer) : Prop :=
 Lemma post_state_line buflen lx ln lc : post_state buflen lx = (ln, lc) -> ln = cur_line lx.
 Proof. unfold post_state. intro H. injection H as <- _. reflexivity. Qed.
 
+(** the location the lexer reports in a state: after the text [upto], where [upto] ends at the staged token's
+    start, or at the current index *)
+Lemma post_state_loc buflen lx ln lc upto :
+  post_state buflen lx = (ln, lc) -> pos_at upto = (cur_line lx, line_start lx) -> current_idx buflen lx = byte_len upto ->
+  lc = loc_after upto.
+Proof.
+  unfold post_state, loc_after. intros H Hp Hi. injection H as _ <-. rewrite Hp, Hi. reflexivity.
+Qed.
+
 Lemma lex_all_spec prof buflen : forall fuel lx pre,
-  sinv_core pre lx -> staged_ok2 pre lx -> (measure lx < fuel)%nat ->
+  sinv_core pre lx -> staged_ok2 pre lx -> (measure lx < fuel)%nat -> buflen = byte_len (pre ++ rest lx) ->
   exists pts, lex_all prof fuel buflen lx = Ok pts /\ stream_staged pre lx pts.
 Proof.
-  induction fuel as [|f IH]; intros lx pre SC SO Hm; [lia|].
+  induction fuel as [|f IH]; intros lx pre SC SO Hm Hbuf; [lia|].
   cbn [lex_all]. unfold lexer_next. unfold stream_staged, staged_ok2, measure in *.
   destruct (staged lx) as [t2|] eqn:Est.
   - (* the staged suffix token comes out first *)
     cbn [bind].
     set (lx0 := mkLexer (rest lx) (idx lx) None (cur_line lx) (line_start lx)).
-    destruct (post_state buflen lx0) as [ln lc] eqn:Eps. apply post_state_line in Eps.
+    destruct (post_state buflen lx0) as [ln lc] eqn:Eps. pose proof (post_state_line _ _ _ _ Eps) as Eln.
+    assert (Eloc : lc = loc_after pre).
+    { eapply post_state_loc; [exact Eps| |].
+      - destruct SC as [_ B _]. exact B.
+      - unfold current_idx. cbn [staged lx0 rest idx]. destruct SC as [A _ _].
+        destruct (rest lx) eqn:Er; [rewrite Hbuf, app_nil_r; reflexivity|exact A]. }
     destruct (IH lx0 pre) as (pts & Hl & Hs).
     + destruct SC as [A B Cc]. constructor; auto.
     + unfold staged_ok2. cbn. exact I.
     + unfold measure. cbn [rest staged lx0]. lia.
+    + exact Hbuf.
     + rewrite Hl. cbn [bind]. eexists. split; [reflexivity|].
       unfold stream_staged in Hs. cbn [staged lx0 rest] in Hs. eexists. eexists. split; [reflexivity|].
-      cbn [pt_tok pt_line]. repeat split; auto. rewrite Eps. cbn [lx0 cur_line]. destruct SC as [_ B _]. rewrite B. reflexivity.
+      cbn [pt_tok pt_line pt_loc]. repeat split; auto. rewrite Eln. cbn [lx0 cur_line]. destruct SC as [_ B _]. rewrite B. reflexivity.
   - pose proof (match_loop_spec prof (S (length (rest lx))) lx pre SC (Nat.lt_succ_diag_r _)) as M.
     destruct (match_loop prof (S (length (rest lx))) lx) as [[[t lx']|]| | | | |]; try contradiction; cbn [bind].
     + destruct M as (g & gap2 & sp2 & H1 & H2 & H3 & H4 & H5 & H6 & H7 & H8 & H9).
-      destruct (post_state buflen lx') as [ln lc] eqn:Eps. apply post_state_line in Eps.
+      destruct (post_state buflen lx') as [ln lc] eqn:Eps. pose proof (post_state_line _ _ _ _ Eps) as Eln.
       assert (Hlen : length (rest lx) = (length g + (length (tspell t) + (length gap2 + (length sp2 + length (rest lx')))))%nat)
         by (rewrite H1, !app_length; reflexivity).
       pose proof (nonempty_length _ H3) as L1.
+      assert (Hnl2 : no_nl (gap2 ++ sp2) = true).
+      { rewrite no_nl_app. rewrite H9, andb_true_r. apply forallb_apos_no_nl. exact H4. }
       assert (Hline : ln = fst (pos_at (pre ++ g ++ tspell t))).
-      { rewrite Eps. destruct H7 as [_ B _]. 
+      { rewrite Eln. destruct H7 as [_ B _].
         assert (E : pre ++ g ++ tspell t ++ gap2 ++ sp2 = (pre ++ g ++ tspell t) ++ (gap2 ++ sp2)) by (rewrite <- !app_assoc; reflexivity).
-        rewrite E in B. rewrite pos_at_app_no_nl in B.
-        - rewrite B. reflexivity.
-        - rewrite no_nl_app. rewrite H9, andb_true_r. apply forallb_apos_no_nl. exact H4. }
+        rewrite E in B. rewrite pos_at_app_no_nl in B by exact Hnl2. rewrite B. reflexivity. }
+      assert (Hbuf' : buflen = byte_len ((pre ++ g ++ tspell t ++ gap2 ++ sp2) ++ rest lx')).
+      { rewrite Hbuf, H1. rewrite <- !app_assoc. reflexivity. }
+      assert (Hloc : lc = loc_after (pre ++ g ++ tspell t ++ gap2)).
+      { eapply post_state_loc; [exact Eps| |].
+        - destruct H7 as [_ B _].
+          assert (E : pre ++ g ++ tspell t ++ gap2 ++ sp2 = (pre ++ g ++ tspell t ++ gap2) ++ sp2) by (rewrite <- ?app_assoc; reflexivity).
+          rewrite E in B. rewrite pos_at_app_no_nl in B by exact H9. exact B.
+        - unfold current_idx. destruct (staged lx') as [t2|].
+          + destruct H6 as (A & B & Cc). destruct Cc as [Cs _]. rewrite Cs. rewrite <- ?app_assoc. reflexivity.
+          + subst sp2. destruct H7 as [A _ _]. rewrite app_nil_r in A. rewrite <- ?app_assoc in A.
+            destruct (rest lx') eqn:Er; [|exact A].
+            rewrite Hbuf', app_nil_r, app_nil_r. rewrite <- ?app_assoc. reflexivity. }
       destruct (IH lx' (pre ++ g ++ tspell t ++ gap2 ++ sp2)) as (pts & Hl & Hs); auto.
       * unfold staged_ok2. destruct (staged lx') as [t2|]; auto. destruct H6 as (A & B & Cc).
         split; [rewrite <- A; exact B|]. split; [rewrite <- A; exact H9|]. exists (pre ++ g ++ tspell t ++ gap2). split.
@@ -286,17 +321,19 @@ Proof.
         -- lia.
       * rewrite Hl. cbn [bind]. eexists. split; [reflexivity|].
         rewrite H1. apply (ps_cons pre g (mkPT t ln lc)); auto.
-        unfold stream_staged in Hs. destruct (staged lx') as [t2|].
-        -- destruct H6 as (A & B & Cc). destruct Hs as (pt & ts' & E & Ept & Elin & Hs). rewrite E. subst sp2. cbn [pt_tok].
-           rewrite <- Ept. apply ps_cons; auto.
-           ++ apply apos_ignorable; exact H4.
-           ++ rewrite Ept. exact B.
-           ++ rewrite Ept. eapply tok_wf_eq; [|exact Cc]. rewrite <- !app_assoc. reflexivity.
-           ++ left. rewrite Ept. exact H9.
-           ++ rewrite Elin. f_equal. f_equal. rewrite Ept. rewrite <- !app_assoc. reflexivity.
-           ++ eapply pstream_eq; [| reflexivity | exact Hs]. rewrite Ept. rewrite <- !app_assoc. reflexivity.
-        -- subst sp2. cbn [app pt_tok]. apply pstream_gap; [apply apos_ignorable; exact H4|].
-           eapply pstream_eq; [| reflexivity | exact Hs]. rewrite <- !app_assoc, app_nil_r. reflexivity.
+        -- cbn [pt_tok pt_loc]. exists gap2, (sp2 ++ rest lx'). repeat split; auto.
+        -- unfold stream_staged in Hs. destruct (staged lx') as [t2|].
+           ++ destruct H6 as (A & B & Cc). destruct Hs as (pt & ts' & E & Ept & Elin & Elc & Hs). rewrite E. subst sp2. cbn [pt_tok].
+              rewrite <- Ept. apply ps_cons; auto.
+              ** apply apos_ignorable; exact H4.
+              ** rewrite Ept. exact B.
+              ** rewrite Ept. eapply tok_wf_eq; [|exact Cc]. rewrite <- !app_assoc. reflexivity.
+              ** left. rewrite Ept. exact H9.
+              ** rewrite Elin. f_equal. f_equal. rewrite Ept. rewrite <- !app_assoc. reflexivity.
+              ** exists [], (rest lx'). repeat split; auto. rewrite Elc, app_nil_r. f_equal. rewrite Ept. rewrite <- !app_assoc. reflexivity.
+              ** eapply pstream_eq; [| reflexivity | exact Hs]. rewrite Ept. rewrite <- !app_assoc. reflexivity.
+           ++ subst sp2. cbn [app pt_tok]. apply pstream_gap; [apply apos_ignorable; exact H4|].
+              eapply pstream_eq; [| reflexivity | exact Hs]. rewrite <- !app_assoc, app_nil_r. reflexivity.
     + eexists. split; [reflexivity|]. apply ps_nil. exact M.
 Qed.
 
@@ -310,6 +347,7 @@ Proof.
   - constructor; cbn; auto.
   - exact I.
   - unfold measure. cbn. lia.
+  - reflexivity.
   - exists pts. split; auto.
 Qed.
 
